@@ -195,6 +195,43 @@ fn scenario(name: &str, n: i64) {
             let r = a.intersection(&b);
             assert!(!r.0.is_empty());
         }
+        "union" | "bars" => {
+            // every edge of the big operand ends up in the result: the in-result edges are linked from top to
+            // bottom through `prev_in_result`, so whatever owns those links is released as one long chain
+            let a = if what == "union" {
+                MultiPolygon(vec![comb(n as usize, 0.0)])
+            } else {
+                MultiPolygon(
+                    (0..n)
+                        .map(|k| {
+                            let y = 2.0 * k as f64;
+                            Polygon::new(
+                                LineString(vec![
+                                    Coord { x: 0.0, y },
+                                    Coord { x: 1.0, y },
+                                    Coord { x: 1.0, y: y + 1.0 },
+                                    Coord { x: 0.0, y: y + 1.0 },
+                                    Coord { x: 0.0, y },
+                                ]),
+                                vec![],
+                            )
+                        })
+                        .collect(),
+                )
+            };
+            let b = MultiPolygon(vec![Polygon::new(
+                LineString(vec![
+                    Coord { x: 0.25, y: 0.25 },
+                    Coord { x: 0.5, y: 0.25 },
+                    Coord { x: 0.5, y: 0.5 },
+                    Coord { x: 0.25, y: 0.5 },
+                    Coord { x: 0.25, y: 0.25 },
+                ]),
+                vec![],
+            )]);
+            let r = a.union(&b);
+            assert!(!r.0.is_empty());
+        }
         "sweepdesc" => {
             // tips at x = 1 .. 1 + n/1000 enter top to bottom; the clipping box ends at x = 800 < 900, so the
             // sweep breaks while every tooth edge is still on the sweep line
